@@ -288,6 +288,7 @@ Proof.
   - unfold collect_job. destruct (st_eqb (jstat j0) RUNNING); cbn; discriminate.
   - exact (Forall_nth _ _ _ _ Pr E).
   - exact (Forall_nth _ _ _ _ Pr E).
+  - exact (Forall_nth _ _ _ _ Pr E).
   - intros _ _ X. apply negb_false_iff in X. exact X.
   - apply andb_true_iff in E as [E1 _]. rewrite E1. apply Forall_forall. intros x _ _ _ _. reflexivity.
 Qed.
@@ -416,6 +417,7 @@ Proof.
   - rewrite nth_app_new. destruct (Nat.eqb j (length (jobs g))) eqn:Ej.
     + apply Nat.eqb_eq in Ej. apply nth_some_lt in Hj. lia.
     + exists jb. split; [exact Hj| split; [exact D1| split; [exact D2| exact D3]]].
+  - (* it was never launched *) match goal with Hm : mem_st RUNNING _ && _ = true |- _ => rewrite D3 in Hm; discriminate Hm end.
   - rewrite D2 in E0. discriminate E0.
 Qed.
 
